@@ -109,6 +109,18 @@ def full_traversal_driver(ctx, cfg, a, body, owners, cl, owner_local, finisher_b
         for sl in slices:
             p = sl[3]
             st = State(d.mem, d.facts)
+            # a zip partner that may be shorter ends the traversal early: the storage is only known to be covered when every partner yields
+            # exactly as many items as the slice has slots
+            short = False
+            for x in d.args:
+                for z in find_in(x, lambda t: isinstance(t, tuple) and len(t) == 5 and t[0] == "V" and t[1] == "iter" and t[2] == "zip"):
+                    for mine, other in ((z[3], z[4]), (z[4], z[3])):
+                        if find_in(mine, lambda t: t is sl or t == sl):
+                            ol = pipe_len(a, other)
+                            if ol is None or p[3] is None or not peq(a, d.facts, ol, p[3]):
+                                short = True
+            if short:
+                continue
             if o["array_is_ref"]:
                 arr = a.read_cell(st, ("local", owner_local), (o["array"],), None)
                 base_ok = arr[0] == "P" and arr[1] == p[1]
